@@ -26,6 +26,7 @@ def hex4 (n : Nat) : String :=
 def handleBoard (i o : Json) : Except String Verdict := do
   let board ← getStr i "board"
   let engine ← getStr i "engine"
+  let profile := match i.getObjValAs? String "profile" with | .ok p => p | .error _ => "general"
   let (ao, atxt) ← decodeOut (← getObj o "ascii")
   let (uo, utxt) ← decodeOut (← getObj o "unicode")
   let texts ← (← getArr o "texts").toList.mapM fun x => x.getStr?
@@ -65,7 +66,7 @@ def handleBoard (i o : Json) : Except String Verdict := do
         else if pos.startsWith "BORDER_" then "border"
         else if (!container && pos == "INSIDE_MIDDLE_CENTER") || (container && (pos == "OUTSIDE_TOP_CENTER" || pos == "INSIDE_TOP_CENTER")) then "default"
         else "other"
-      let conn := if nconn == 0 then "noconn" else "conn"
+      let conn := (if nconn == 0 then "noconn" else "conn") ++ ":" ++ profile
       if !isInfix label.toList a.toList then
         return .specfalse s!"label-missing:standard:{kind}:{who}:{grp}:{conn}" s!"{ctx}: label \"{label}\" ({pos}) of {ty} {id} does not occur in the standard output"
       if !isInfix label.toList u.toList then
